@@ -24,6 +24,20 @@ fn base_pset(r: &mut Rng, nin: usize, nout: usize) -> Pset {
     for j in 0..nout {
         p.add_output(Output::new_explicit(Script::from(vec![0x51, j as u8]), 1000 + j as u64, asset, None));
     }
+    // the first input carries a blinded issuance (commitments only) and one further output carries commitments only
+    if nin > 0 {
+        let i = &mut p.inputs_mut()[0];
+        i.issuance_value_comm = pools::conf_value(r).commitment();
+        i.issuance_inflation_keys_comm = pools::conf_value(r).commitment();
+        i.issuance_asset_entropy = Some(pools::bytes32(r));
+        i.blinded_issuance = Some(1);
+    }
+    let mut oc = Output::new_explicit(Script::from(vec![0x51, 0x77]), 1, asset, None);
+    oc.amount = None;
+    oc.asset = None;
+    oc.amount_comm = pools::conf_value(r).commitment();
+    oc.asset_comm = pools::conf_asset(r).commitment();
+    p.add_output(oc);
     p
 }
 
@@ -158,6 +172,8 @@ fn apply(p: &mut Pset, st: &Value, r: &mut Rng) {
                 "witness_utxo" => i.witness_utxo = Some(TxOut { asset: confidential::Asset::Explicit(pools::asset_id(r)), value: confidential::Value::Explicit(5), nonce: confidential::Nonce::Null, script_pubkey: Script::from(vec![0x51]), witness: Default::default() }),
                 "sighash_type" => i.sighash_type = Some(elements::EcdsaSighashType::All.into()),
                 "issuance_value_proof" => i.in_issuance_blind_value_proof = Some(Box::new(pools::rangeproof_small(r))),
+                "issuance_value_explicit" => { i.issuance_value_amount = Some(123_456); i.in_issuance_blind_value_proof = Some(Box::new(pools::rangeproof_small(r))); }
+                "issuance_keys_explicit" => { i.issuance_inflation_keys = Some(7); i.in_issuance_blind_inflation_keys_proof = Some(Box::new(pools::rangeproof_small(r))); }
                 x => panic!("in field {}", x),
             }
         }
@@ -171,6 +187,14 @@ fn apply(p: &mut Pset, st: &Value, r: &mut Rng) {
                 "tap_internal_key" => o.tap_internal_key = Some(pools::pubkey(r).x_only_public_key().0),
                 "redeem_script" => o.redeem_script = Some(Script::from(vec![0x51])),
                 x => panic!("out field {}", x),
+            }
+        }
+        "commit_out_field" => {
+            let o = &mut p.outputs_mut()[pos - 1];
+            match f {
+                "amount_explicit" => { o.amount = Some(4_242); o.blind_value_proof = Some(Box::new(pools::rangeproof_small(r))); }
+                "asset_explicit" => { o.asset = Some(pools::asset_id(r)); o.blind_asset_proof = Some(Box::new(pools::surjectionproof(r, 1))); }
+                x => panic!("commit out field {}", x),
             }
         }
         "req_time" => set_time(&mut p.inputs_mut()[pos - 1], f),
@@ -243,12 +267,18 @@ pub fn history(args: &[String], out: &mut Out) {
                             if t.witness.script_witness != inp.final_script_witness.clone().unwrap_or_default() {
                                 out.viol("C08/extract/script_witness", case.clone(), String::new());
                             }
+                            if inp.issuance_value_comm.is_some() && (t.asset_issuance.amount.commitment() != inp.issuance_value_comm || t.asset_issuance.inflation_keys.commitment() != inp.issuance_inflation_keys_comm) {
+                                out.viol("C08/extract/issuance-commitment-not-used", case.clone(), String::new());
+                            }
                             if t.previous_output.txid != inp.previous_txid {
                                 out.viol("C08/extract/prevout", case.clone(), String::new());
                             }
                         }
                         for (k, o) in p.outputs().iter().enumerate() {
-                            if a.output[k].value.explicit() != o.amount || a.output[k].script_pubkey != o.script_pubkey {
+                            if o.amount_comm.is_some() {
+                                // commitments win over explicit values stored next to them
+                                if a.output[k].value.commitment() != o.amount_comm || a.output[k].asset.commitment() != o.asset_comm { out.viol("C08/extract/output-commitment-not-used", case.clone(), String::new()); }
+                            } else if a.output[k].value.explicit() != o.amount || a.output[k].script_pubkey != o.script_pubkey {
                                 out.viol("C08/extract/output", case.clone(), String::new());
                             }
                         }
@@ -304,7 +334,11 @@ pub fn record(args: &[String], out: &mut Out) {
             let pick = |r: &mut Rng, k: usize| (r.next_u32() as usize) % k;
             let st = match pick(&mut r, 10) {
                 0..=3 => json!({"op":"in_field","pos":1+pick(&mut r,3),"f":in_fields[pick(&mut r,in_fields.len())]}),
-                4 => json!({"op":"out_field","pos":1+pick(&mut r,2),"f":out_fields[pick(&mut r,out_fields.len())]}),
+                4 => match pick(&mut r, 4) {
+                    0 => json!({"op":"in_field","pos":1,"f":(["issuance_value_explicit","issuance_keys_explicit"][pick(&mut r,2)])}),
+                    1 => json!({"op":"commit_out_field","pos":3,"f":(["amount_explicit","asset_explicit"][pick(&mut r,2)])}),
+                    _ => json!({"op":"out_field","pos":1+pick(&mut r,2),"f":out_fields[pick(&mut r,out_fields.len())]}),
+                },
                 5 | 6 => json!({"op":"req_time","pos":1+pick(&mut r,3),"f":(["tlo","thi"][pick(&mut r,2)])}),
                 7 | 8 => json!({"op":"req_height","pos":1+pick(&mut r,3),"f":(["hlo","hhi"][pick(&mut r,2)])}),
                 _ => if pick(&mut r, 3) == 0 { json!({"op":"amount","pos":1+pick(&mut r,2),"f":"a2"}) } else { json!({"op":"fallback","pos":0,"f":(["absent","fh","ft"][pick(&mut r,3)])}) },
